@@ -23,7 +23,7 @@ PINNED = {
     "BasicRayTracePath.__init__": RT, "UniformRayTracePath._points": RT, "UniformRayTracer.solutions": RT, "UniformRayTracer._reflected_path": RT,
 }
 PIN_FILE = os.path.join(ROOT, "harness", "pins", "C02.json")
-FREQS = np.array([1e8, 5e8])
+FREQS = np.array([1e8, 3e8, 5e8, 1e9])
 
 
 def gen_files(scratch):
@@ -59,32 +59,7 @@ def make_tracer(cfg, f=None, t=None):
     return BasicRayTracer(f, t, ice, dz=cfg.get("dz", 1))
 
 
-_ICEP = {}
-
-
-def cancellation_bound(s):
-    """C01's derived worst-case effect (radial distance, path length, tof) of the log_term_1 cancellation of the analytic
-    tracer on this solution (harness.props.c01.log1_bound: shallow closed forms evaluated at the segment endpoints at or
-    above z_uniform and at z_uniform when crossed).  Zero for every other path class."""
-    if type(s).__name__ != "SpecializedRayTracePath":
-        return np.zeros(3)
-    from harness.props import c01
-    cls = type(s.ice).__name__
-    if cls not in _ICEP:
-        _ICEP[cls] = c01.ice_params(None, default_of=cls)
-    icep = _ICEP[cls]
-    zf, zt = float(s.from_point[2]), float(s.to_point[2])
-    em = U.fl(s.emitted_direction)
-    beta = c01.nprof(icep, zf) * math.hypot(em[0], em[1])
-    zu = c01.z_uniform_of(icep)
-    if s.direct:
-        legs = [(min(zf, zt), max(zf, zt), False)]
-    else:
-        ntop = c01.nprof(icep, icep["hi"])
-        zturn = icep["hi"] if beta <= ntop else math.log((icep["n0"] - beta) / icep["k"]) / icep["a"]
-        legs = [(zf, zturn, True), (zt, zturn, True)]
-    with np.errstate(all="ignore"):
-        return np.asarray(c01.log1_bound(icep, beta, legs, zu), dtype=float)
+cancellation_bound = U.cancellation_bound
 
 
 def observe(tr):
@@ -279,12 +254,41 @@ def probe_cfg(ctx, cfg, rng):
     if cfg["kind"] in ("specialized", "basic") and len(o) not in (0, 2):
         ctx.fail("%s:count:%s" % (cfg["kind"], key_cfg), "gradient-index tracer reports %d solutions (must be none or two); %s" % (len(o), key_cfg),
                  {"kind": "sym", "what": "count", "cfg": cfg})
+    if cfg["kind"] in ("uniform", "layered") and cfg["from"][2] == cfg["to"][2] and o:
+        # horizontal direct path through ice of one index: attenuation = exp(-L / l_att(z, f)) with L the straight distance
+        Ld = math.dist(cfg["from"], cfg["to"])
+        dsol = min(o, key=lambda a: abs(a["L"] - Ld))
+        lay = None
+        if cfg["kind"] == "uniform":
+            lay = U.mk_uniform_ice(cfg["ice"])
+        else:
+            cand = [l for l in cfg["ice"]["layers"] if l["kind"] == "uniform" and l["lo"] < cfg["from"][2] < l["hi"]]
+            lay = U.mk_layer(cand[0]) if cand else None
+        if lay is not None and Ld > 0 and abs(dsol["L"] - Ld) <= 1e-9 * (1 + Ld):
+            with np.errstate(all="ignore"):
+                want = np.exp(-Ld / np.asarray(lay.attenuation_length(cfg["from"][2], FREQS)))
+            for fq, g, w in zip(FREQS, dsol["att"], want):
+                if abs(math.log(max(g, 1e-300)) - math.log(max(float(w), 1e-300))) > 1e-9 * (1 + Ld / 100.0):
+                    ctx.fail("%s:horizontal-attenuation:%s" % (cfg["kind"], key_cfg),
+                             "%s tracer: direct horizontal path of length %r at depth %r: attenuation(%g Hz) = %r but exp(-L / attenuation_length) = %r; %s" % (
+                                 cfg["kind"], Ld, cfg["from"][2], fq, g, float(w), key_cfg), {"kind": "sym", "what": "horizontal attenuation", "cfg": cfg})
+                    break
     if cfg["kind"] in ("specialized", "basic") and near_regime_edge(tr):
         return
     f, t = cfg["from"], cfg["to"]
+    vertical_layered = cfg["kind"] == "layered" and f[0] == t[0] and f[1] == t[1]
+
+    def judged(lst):
+        # exactly vertical rays in the layered tracer: a downward launch is the angle pi, whose tangent is -1.2e-16 instead of 0, so the
+        # summed radial distance of a path with more than ~8 km of vertical travel exceeds the tracer's 1e-12 m zero tolerance
+        # and the path is not found, while the upward launch (angle 0, tangent exactly 0) finds it: rounding artefact of a
+        # degenerate input, recorded in design_notes/C02.md; such paths are not counted on either side
+        return [a for a in lst if a["L"] < 7000.0] if vertical_layered else lst
+    o = judged(o)
     # swap
     try:
         exs, os_ = observe(make_tracer(cfg, t, f))
+        os_ = judged(os_)
         compare(ctx, cfg, "swap of source and receiver", o, os_, lambda a: [-x for x in a["rc"]], lambda a: [-x for x in a["em"]],
                 att_allow=atten_swap_allowance if cfg["kind"] in ("uniform", "layered") else None)
     except Exception as e:
@@ -300,6 +304,7 @@ def probe_cfg(ctx, cfg, rng):
     f2, t2 = [f[0] + ox, f[1] + oy, f[2]], [t[0] + ox, t[1] + oy, t[2]]
     try:
         ext, ot = observe(make_tracer(cfg, f2, t2))
+        ot = judged(ot)
     except (ValueError, RuntimeError):
         if cfg["kind"] not in ("specialized", "basic"):
             raise
@@ -311,6 +316,7 @@ def probe_cfg(ctx, cfg, rng):
     c, s = math.cos(psi), math.sin(psi)
     try:
         exr, orr = observe(make_tracer(cfg, rotz(f, c, s), rotz(t, c, s)))
+        orr = judged(orr)
     except (ValueError, RuntimeError):
         if cfg["kind"] not in ("specialized", "basic"):
             raise
@@ -358,7 +364,14 @@ def rand_gradient_cfg(rng, kind):
 
 
 def rand_uniform(rng):
-    return {"kind": "uniform", **C18.rand_uniform_cfg(rng)}
+    c = C18.rand_uniform_cfg(rng)
+    if rng.random() < 0.18 and c["ice"]["lo"] <= c["from"][2] <= c["ice"]["hi"]:
+        c["to"][2] = c["from"][2]                    # exactly equal depths: the direct path is a horizontal segment
+        if c["to"][:2] == c["from"][:2] or rng.random() < 0.5:
+            c["to"][0] = c["from"][0] + rng.choice([0.0, 40.0, -333.0])      # separation along y only / mostly
+            c["to"][1] = c["from"][1] + rng.choice([250.0, -75.5, 1200.0])
+        return {"kind": "uniform", **c, "tags": ["equal_depth"]}
+    return {"kind": "uniform", **c}
 
 
 def rand_layered(rng):
@@ -372,6 +385,13 @@ def rand_layered(rng):
         if which in ("from", "both"):
             c["from"][2] = float(rng.choice(interior))
         tags.append("on_interior_boundary:" + which)
+    if not tags and rng.random() < 0.15:
+        lay = [l for l in c["ice"]["layers"] if l["kind"] == "uniform" and l["lo"] < c["from"][2] < l["hi"]]
+        if lay:
+            c["to"][2] = c["from"][2]                            # equal depths strictly inside a uniform layer
+            c["to"][0], c["to"][1] = c["from"][0] + rng.choice([0.0, 55.0]), c["from"][1] + rng.choice([180.0, -640.0])
+            tags.append("equal_depth")
+            return {"kind": "layered", **c, "tags": tags}
     v = rng.random()
     if v < 0.12:
         c["to"][0], c["to"][1] = c["from"][0], c["from"][1]      # exactly vertical
